@@ -520,7 +520,7 @@ func nonZeroOnPath(v ssa.Value, b *ssa.BasicBlock) bool {
 // buffer keeps the bytes of the previous, longer file behind the truncated one).
 func checkLoadChainState(p *core.Program, r *core.Report, chain []flow.FuncUnit) {
 	g := eff.BuildGraph(p)
-	writers := eff.GlobalWriters(g)
+	writers := eff.GlobalStateWriters(g)
 	written := map[*ssa.Global]*ssa.Function{}
 	for f, gs := range writers {
 		for _, gl := range gs {
